@@ -105,7 +105,10 @@ def specs(tier):
     if tier == "quick":
         out.append(Spec("3trx/v0", child, 2, 2, [(0, 0)] * 3, tier))
         out.append(Spec("3trx/mixed", child, 2, 2, [(1, 0), (0, 0), (1, 1)], tier, trim=(2,)))
+        out.append(Spec("3trx/first-rx-muted", child, 1, 1, [(0, 1), (0, 0), (0, 0)], tier))
     else:
+        out.append(Spec("3trx/first-rx-muted", child, 2, 2, [(0, 1), (0, 0), (0, 0)], tier))
+        out.append(Spec("3trx/first-rx-muted-v1", child, 1, 2, [(1, 1), (1, 0), (1, 0)], tier))
         out.append(Spec("3trx/v0", child, 3, 4, [(0, 0)] * 3, tier))
         out.append(Spec("3trx/v1", child, 2, 3, [(1, 0)] * 3, tier))
         out.append(Spec("3trx/mixed", child, 2, 3, [(1, 0), (0, 0), (1, 1)], tier))
